@@ -24,6 +24,9 @@ import (
 
 var nop = zap.NewNop()
 
+// Nop is the logger connections built by harnesses use.
+var Nop = nop
+
 // Spec names a matcher module and one configuration of it.
 type Spec struct {
 	Module string          `json:"module"` // e.g. "postgres"
